@@ -189,6 +189,38 @@ def run_const(tier, r):
         if got != ("ok", b"\x01" + enc + b"\x02"):
             V(r, "const/struct-omitted", dict(case0, op="struct"), "struct build gives %r" % (got,))
         r.sample({"const": name, "inputs": len(inputs), "supplied_values": len(others)}, cap=2)
+    # "always emits that encoding": the encoding of the constant may depend on the context of the call, so one instance built
+    # under every sequence of <= 3 contexts must emit, each time, what a fresh instance emits under that context
+    this = C.this
+    ctxinsts = [
+        ("Const(0x0102, BytesInteger(2, swapped=this.le))", lambda: C.Const(0x0102, C.BytesInteger(2, swapped=this.le)), [dict(le=False), dict(le=True)]),
+        ("Const(0x0102, Bitwise(BitsInteger(16, swapped=this.le)))", lambda: C.Const(0x0102, C.Bitwise(C.BitsInteger(16, swapped=this.le))), [dict(le=False), dict(le=True)]),
+        ("Const(b'ab', Bytes(this.n))", lambda: C.Const(b"ab", C.Bytes(this.n)), [dict(n=2), dict(n=3)]),
+        ("Const(1, BytesInteger(this.n))", lambda: C.Const(1, C.BytesInteger(this.n)), [dict(n=1), dict(n=2), dict(n=4)]),
+        ("Const(b'ab', ProcessXor(this.k, Bytes(2)))", lambda: C.Const(b"ab", C.ProcessXor(this.k, C.Bytes(2))), [dict(k=0), dict(k=1), dict(k=0x20)]),
+        ("Const(5, IfThenElse(this.w, Int16ub, Byte))", lambda: C.Const(5, C.IfThenElse(this.w, C.Int16ub, C.Byte)), [dict(w=True), dict(w=False)]),
+        ("Struct(c/Const(258, BytesInteger(2, swapped=this._params.le)))", lambda: C.Struct("c" / C.Const(258, C.BytesInteger(2, swapped=this._params.le)), "t" / C.Byte), [dict(le=False), dict(le=True)]),
+    ]
+    for name, mk, ctxs in ctxinsts:
+        value = {} if name.startswith("Struct") else None
+        if name.startswith("Struct"):
+            value = dict(t=7)
+        fresh = [outcome(lambda c=c: mk().build(value, **c)) for c in ctxs]
+        for n in (1, 2, 3):
+            for seq in itertools.product(range(len(ctxs)), repeat=n):
+                d = mk()
+                r.states += 1
+                for step, ci in enumerate(seq):
+                    got = outcome(lambda: d.build(value, **ctxs[ci]))
+                    if got != fresh[ci]:
+                        V(r, "const/encoding-depends-on-earlier-build", {"t": "const", "inst": name, "contexts": [ctxs[i] for i in seq]},
+                          "%s built under contexts %r: build #%d gives %r, a fresh instance under %r gives %r" % (name, [ctxs[i] for i in seq], step + 1, got, ctxs[ci], fresh[ci]))
+                    elif got[0] == "ok":
+                        back = outcome(lambda: d.parse(got[1], **ctxs[ci]))
+                        if back[0] != "ok":
+                            V(r, "const/own-encoding-refused", {"t": "const", "inst": name, "contexts": [ctxs[i] for i in seq]}, "parse of the emitted %s under %r: %r" % (got[1].hex(), ctxs[ci], back))
+                r.case(key=("const-hist", name, seq), nontrivial=True, outcome="const-history", transitions=n, validated=n)
+    r.sample({"const_context_histories": [c[0] for c in ctxinsts], "depth": 3})
 
 
 # -------------------------------------------------------------------------- validators
